@@ -399,3 +399,19 @@ Proof.
   intros P Hne. apply (Rep_unique lo hi _ _ (concat parts) Hne); [apply rdd_stats_rep|].
   eapply Rep_perm; [apply Permutation_sym, P | apply rdd_stats_rep].
 Qed.
+
+(* the order premises of PV.Proofs.StatsOrder hold for R (on all values) *)
+Lemma Rltb_true a b : Rltb a b = true <-> a < b.
+Proof. unfold Rltb. destruct (Rlt_dec a b); split; intros; try lra; try discriminate; reflexivity. Qed.
+Lemma Rltb_false a b : Rltb a b = false <-> b <= a.
+Proof. unfold Rltb. destruct (Rlt_dec a b); split; intros; try lra; try discriminate; reflexivity. Qed.
+Lemma R_order_premises :
+  (forall a : @F ROps, True -> fltb a a = false) /\
+  (forall a b c : @F ROps, True -> True -> True -> fltb a b = true -> fltb b c = true -> fltb a c = true) /\
+  (forall a b c : @F ROps, True -> True -> True -> fltb a b = false -> fltb b c = false -> fltb a c = false).
+Proof.
+  cbn [F fltb ROps]. repeat split.
+  - intros a _. apply Rltb_false. lra.
+  - intros a b c _ _ _ H1 H2. apply Rltb_true in H1, H2. apply Rltb_true. lra.
+  - intros a b c _ _ _ H1 H2. apply Rltb_false in H1, H2. apply Rltb_false. lra.
+Qed.
